@@ -17,8 +17,35 @@ THEOREMS = [
     "Qentem.Props.C13.hash_ne_zero",
     "Qentem.Props.C13.hash_top_bit",
     "Qentem.Props.C13.hashChar_ne_zero",
+    "Qentem.Props.C13.inv_empty",
+    "Qentem.Props.C13.find_fuel",
+    "Qentem.Props.C13.inv_step_refine_step",
+    "Qentem.Props.C13.reachable_refines_partial",
+    # the lemmas the step theorem rests on (one per routine)
+    "Qentem.HashTable.find_some",
+    "Qentem.HashTable.find_none",
+    "Qentem.HashTable.insertAt_inv",
+    "Qentem.HashTable.genLoop_spec",
+    "Qentem.HashTable.rebuild_spec",
+    "Qentem.HashTable.resize_spec",
+    "Qentem.HashTable.insert_spec",
+    "Qentem.HashTable.getOrCreate_spec",
+    "Qentem.HashTable.assign_spec",
+    "Qentem.HashTable.lookup_spec",
+    "Qentem.HashTable.lookupIdx_spec",
+    "Qentem.HashTable.remove_spec",
+    "Qentem.HashTable.removeIdx_spec",
+    "Qentem.HashTable.reset_spec",
+    "Qentem.HashTable.clear_spec",
+    "Qentem.HashTable.reserve_spec",
+    "Qentem.HashTable.resizeTo_spec",
+    "Qentem.HashTable.expect_spec",
+    "Qentem.HashTable.compress_spec",
+    "Qentem.HashTable.copy_spec",
+    "Qentem.HashTable.move_spec",
+    "Qentem.HashTable.run_refines",
 ]
-OPEN = []
+OPEN = ["Qentem.Props.C13.reachable_refines (full strength: also Rename, Sort, operator+=)"]
 
 W = 1 << 32
 
